@@ -43,7 +43,9 @@ static MAXES: simd::u32x16 = simd::u32x16::from_array([u32::MAX; 16]);
 static MAX_P_TO_BITS: u32 = (1 << 28) - 1;
 static MAX_P_TO_BITS_VEC: simd::u32x16 = simd::u32x16::from_array([MAX_P_TO_BITS; 16]);
 
-const PRC_BIT_TABLE_FROM_ERRORS_UNROLL_N: usize = 16; // must be up to 16.
+// must be up to 15: the clamped running value plus 15 clamped addends is at most
+// 16 * MAX_P_TO_BITS, which still fits in u32.
+const PRC_BIT_TABLE_FROM_ERRORS_UNROLL_N: usize = 15;
 
 impl PrcBitTable {
     #[cfg(test)]
@@ -59,8 +61,8 @@ impl PrcBitTable {
         let mut p_to_bits = ZEROS;
 
         // MAX_P_TO_BITS is designed not to overflow after 16 times of addition.
-        // Each addend is clamped to MAX_P_TO_BITS, so the sum of one chunk and
-        // the (already clamped) running value stays below `17 << 28`.
+        // Each addend is clamped to MAX_P_TO_BITS, so the (already clamped)
+        // running value plus one chunk of 15 addends stays below `1 << 32`.
         //
         // In most of SIMD-capable CPUs, saturating ops can be done with a
         // single instruction. However, strangely the use of `saturating_add`
